@@ -340,7 +340,7 @@ func cli(c *cas) *core.Verdict {
 	if c.K == 0 {
 		c.K = 4
 	}
-	for _, format := range []string{"tree", "types"} {
+	for _, format := range []string{"tree", "types", "types --types_debug --types_verbose"} {
 		first := ""
 		orders := [][]string{files}
 		if len(files) > 1 {
@@ -350,7 +350,7 @@ func cli(c *cas) *core.Verdict {
 		}
 		for _, ord := range orders {
 			for k := 0; k < c.K; k++ {
-				cmd := exec.Command(c.Cli, append([]string{"--format", format}, ord...)...)
+				cmd := exec.Command(c.Cli, append(append([]string{"--format"}, strings.Fields(format)...), ord...)...)
 				cmd.Dir = tmp
 				out, err := cmd.CombinedOutput()
 				v.N++
